@@ -75,8 +75,10 @@ def _sizes(r: random.Random, tier: str):
         ni = 2
     elif c < 0.75:
         ni = r.randint(3, 12)
-    else:
+    elif c < 0.96 or tier != 'thorough':
         ni = r.randint(13, 40)
+    else:
+        ni = r.randint(41, 150)  # thorough tier only
     single = r.choice([0.2, 0.4, 0.6, 0.9])
     t = []
     for _ in range(ni):
